@@ -332,3 +332,119 @@ theorem Cli.run_tidy (ops : List COp) : ∀ {c : Cli}, c.Tidy → (c.run ops).Ti
   | cons op ops ih => intro c h; exact ih (Cli.step_tidy op h)
 
 end Hio.Tcp
+
+/-! ### the client's connect/handshake passes never raise on classified handshake outcomes (C10, multi-pass) -/
+namespace Hio.Tcp
+
+/-- a handshake response the code classifies without raising: done, try again, or give up nicely -/
+def HsOK : HResp → Prop
+  | .ok => True
+  | .fault code => clientHsLookup code = .wouldblock ∨ clientHsLookup code = .aborted ∨ clientHsLookup code = .cutoff
+
+def Cli.Calm (c : Cli) : Prop := ∀ h ∈ c.hsq, HsOK h
+
+def COp.ok : COp → Prop
+  | .connect _ (some h) => HsOK h
+  | _ => True
+
+theorem wantRead_hs_ok : HsOK (.fault Gen.Tcp.wantRead) := Or.inl (by decide +kernel)
+
+theorem Cli.close_calm {c : Cli} (h : c.Calm) : c.close.Calm := by
+  unfold Cli.close; split <;> exact h
+
+theorem Cli.reopen_calm (c : Cli) : c.reopen.Calm := by
+  intro h hh; simp [Cli.reopen, Cli.open] at hh
+
+theorem Cli.accept_calm {c : Cli} (rc : Nat) (h : c.Calm) : (c.accept rc).Calm := by
+  unfold Cli.accept
+  have h1 : (if c.cs.isNone then c.reopen else c).Calm := by
+    split
+    · exact Cli.reopen_calm c
+    · exact h
+  generalize (if c.cs.isNone then c.reopen else c) = c1 at h1
+  simp only
+  split
+  · exact h1
+  · split
+    · exact Cli.reopen_calm c1
+    · exact h1
+
+theorem Cli.hsFault_calm {c : Cli} (code : Nat) (hc : HsOK (.fault code)) (h : c.Calm) :
+    (c.hsFault code).2 = none ∧ (c.hsFault code).1.Calm := by
+  unfold Cli.hsFault
+  rcases hc with hc | hc | hc <;> rw [hc]
+  · exact ⟨rfl, h⟩
+  · exact ⟨rfl, Cli.close_calm h⟩
+  · exact ⟨rfl, Cli.close_calm h⟩
+
+theorem Cli.handshake_calm {c : Cli} (h : c.Calm) : (c.handshake).2 = none ∧ (c.handshake).1.Calm := by
+  unfold Cli.handshake
+  split
+  · exact Cli.hsFault_calm _ wantRead_hs_ok h
+  · rename_i rest hq
+    exact ⟨rfl, fun x hx => h x (by rw [hq]; simp [hx])⟩
+  · rename_i code rest hq
+    exact Cli.hsFault_calm (c := { c with hsq := rest }) code (h (.fault code) (by rw [hq]; simp))
+      (fun x hx => h x (by rw [hq]; simp [hx]))
+
+theorem Cli.connect_calm {c : Cli} (rc : Nat) (h : c.Calm) : (c.connect rc).2 = none ∧ (c.connect rc).1.Calm := by
+  unfold Cli.connect
+  split
+  · exact ⟨rfl, Cli.accept_calm rc h⟩
+  · have h1 : (if c.accepted then c else c.accept rc).Calm := by
+      split
+      · exact h
+      · exact Cli.accept_calm rc h
+    generalize (if c.accepted then c else c.accept rc) = c1 at h1
+    simp only
+    split
+    · exact Cli.handshake_calm h1
+    · exact ⟨rfl, h1⟩
+
+theorem Cli.serviceConnect_calm {c : Cli} (rc : Nat) (h : c.Calm) :
+    (c.serviceConnect rc).2 = none ∧ (c.serviceConnect rc).1.Calm := by
+  unfold Cli.serviceConnect
+  split
+  · exact ⟨rfl, h⟩
+  · have h1 := Cli.connect_calm rc h
+    generalize c.connect rc = r at h1
+    obtain ⟨c1, e⟩ := r
+    obtain ⟨he, hc⟩ := h1
+    simp only at he
+    subst he
+    simp only
+    split
+    · exact ⟨rfl, Cli.reopen_calm c1⟩
+    · exact ⟨rfl, hc⟩
+
+theorem Cli.step_calm {c : Cli} (op : COp) (ho : op.ok) (h : c.Calm) : (c.step op).2 = none ∧ (c.step op).1.Calm := by
+  cases op with
+  | reopen => exact ⟨rfl, Cli.reopen_calm c⟩
+  | close => exact ⟨rfl, Cli.close_calm h⟩
+  | tick d => exact ⟨rfl, h⟩
+  | connect rc hs =>
+    simp only [Cli.step]
+    apply Cli.serviceConnect_calm
+    split
+    · rename_i hh _ _
+      intro x hx
+      simp only [List.mem_append, List.mem_singleton] at hx
+      rcases hx with hx | rfl
+      · exact h x hx
+      · exact ho
+    · exact h
+
+/-- no call of the history raises -/
+def Cli.NoRaise (c : Cli) : List COp → Prop
+  | [] => True
+  | op :: ops => (c.step op).2 = none ∧ Cli.NoRaise (c.step op).1 ops
+
+theorem Cli.noRaise_of_calm (ops : List COp) : ∀ (c : Cli), c.Calm → (∀ op ∈ ops, op.ok) → Cli.NoRaise c ops := by
+  induction ops with
+  | nil => intro _ _ _; trivial
+  | cons op ops ih =>
+    intro c h ho
+    have := Cli.step_calm op (ho op (by simp)) h
+    exact ⟨this.1, ih _ this.2 (fun o hm => ho o (by simp [hm]))⟩
+
+end Hio.Tcp
